@@ -63,7 +63,9 @@ def run_state(lib, m, seed, nsteps):
   """The procedure that defines 'the same state' for the metamorphic isolation check."""
   d = lib.make_data(m)
   rng = mg.apply_state(lib, m, d, seed)
-  if nsteps == 0 and rng.rand() < 0.3:
+  for _ in range(nsteps):
+    lib.mj_step(m, d)
+  if rng.rand() < 0.5:
     # un-normalised ball / free quaternions are a legal input (the engine normalises internally; ballquat is
     # documented to output a unit quaternion)
     for j in range(int(m.njnt)):
@@ -72,8 +74,6 @@ def run_state(lib, m, seed, nsteps):
         d.qpos[a:a + 4] *= rng.uniform(0.5, 2.0)
       elif t == 0:
         d.qpos[a + 3:a + 7] *= rng.uniform(0.5, 2.0)
-  for _ in range(nsteps):
-    lib.mj_step(m, d)
   if m.nsensordata:
     d.sensordata[:] = SENT
   lib.mj_forward(m, d)
